@@ -165,10 +165,10 @@ func traceString(evs []Event, prefixes ...string) string {
 // ---- a real server under test -------------------------------------------------------------------
 
 var (
-	tlsOnce              sync.Once
-	srvTLS, cliTLS       *tls.Config
-	srvMTLS, cliMTLS     *tls.Config
-	otherCAClient        *tls.Config
+	tlsOnce          sync.Once
+	srvTLS, cliTLS   *tls.Config
+	srvMTLS, cliMTLS *tls.Config
+	otherCAClient    *tls.Config
 )
 
 func tlsConfigs() {
